@@ -338,3 +338,100 @@ def inline_span(progs):
                                % (r['name'][:120], o, span, n, ealign, room, (' and field(s) %s lie inside the span' % [x[2] for x in intruders]) if intruders else ''),
                                where=r['name'], unit=prog.uname))
     return rr
+
+
+# ------------------------------------------------------------------------------ SELF-MOVE
+ELEM_ACCESS = {'back', 'front', 'operator[]', 'at'}
+
+
+def _designator(n):
+    """('deref', position expr) / ('acc', accessor call) when n is an lvalue designating a container element, else None."""
+    n = A.strip(n)
+    if not isinstance(n, dict):
+        return None
+    if n.get('k') == 'un' and n.get('op') == '*':
+        return ('deref', n.get('sub'))
+    if n.get('k') == 'idx':
+        return ('deref', n)
+    if n.get('k') == 'call':
+        if n.get('op') == '*' and n.get('obj') is not None:
+            return ('deref', n['obj'])
+        if n.get('method') and A.cshort(n) in ELEM_ACCESS and n.get('obj') is not None:
+            return ('acc', n)
+    return None
+
+
+def _roots(n, linit, depth=0, out=None):
+    out = set() if out is None else out
+    for x in walk(n or {}):
+        if x.get('k') == 'mem' and x.get('field'):
+            out.add(('m', x.get('name')))
+            if A.root(x.get('base'), {})[0] == 'this':
+                out.add(('m', '*this'))
+        elif x.get('k') == 'this' or (x.get('k') == 'call' and x.get('method') and x.get('amc') and (x.get('obj') is None or A.root(x.get('obj'), {})[0] == 'this')):
+            out.add(('m', '*this'))
+        elif x.get('k') == 'ref' and x.get('dk') == 'param':
+            out.add(('p', x.get('idx')))
+        elif x.get('k') == 'ref' and x.get('dk') == 'local' and depth < 4:
+            ini = linit.get(x.get('did'))
+            if ini and ini[0] is not None:
+                _roots(ini[0], linit, depth + 1, out)
+            out.add(('l', x.get('did')))
+    return out
+
+
+def self_move(progs):
+    rr = RuleResult('SELF-MOVE', 'an element is never assigned from an element designator of the same container that may be the very same '
+                                 'element: the two positions differ by a non-zero constant or the assignment is guarded by a comparison of the two')
+    for prog in progs:
+        for f in prog.amc_functions():
+            body = f.get('body')
+            if body is None:
+                continue
+            linit = A.local_inits(body)
+            P = None
+            for n in walk(body):
+                is_asg = (n.get('k') == 'bin' and n.get('op') == '=') or (n.get('k') == 'call' and n.get('op') == '=' and n.get('method') and n.get('obj') is not None)
+                if not is_asg:
+                    continue
+                lhs = n.get('lhs') if n.get('k') == 'bin' else n.get('obj')
+                rhs = n.get('rhs') if n.get('k') == 'bin' else (n.get('args') or [None])[0]
+                r = A.strip(rhs) if rhs is not None else None
+                while isinstance(r, dict) and r.get('k') == 'call' and A.callee(r) in ('std::move', 'std::forward') and len(r.get('args', [])) == 1:
+                    r = A.strip(r['args'][0])
+                dl, dr = _designator(lhs), _designator(r)
+                if dl is None or dr is None:
+                    continue
+                rl, rr_ = _roots(dl[1], linit), _roots(dr[1], linit)
+                common = {x for x in rl & rr_ if x[0] in ('m', 'p')}
+                if not common:
+                    continue
+                if any(x[0] == 'p' for x in rl) and any(x[0] == 'p' for x in rr_) and not any(x[0] == 'm' for x in common) and \
+                        {x for x in rl if x[0] == 'p'} != {x for x in rr_ if x[0] == 'p'}:
+                    continue      # two different parameters: the caller's contract
+                site = rel(prog.site(f, n))
+                ok, why = False, ''
+                if dl[0] == 'deref' and dr[0] == 'deref':
+                    a, b = affine(dl[1], linit), affine(dr[1], linit)
+                    if a is not None and b is not None and a[0] is not None and a[0] == b[0] and a[1] == b[1] and a[2] != b[2]:
+                        ok, why = True, 'positions differ by %d' % (a[2] - b[2])
+                if not ok:
+                    P = P or A.Parents(body)
+                    lvars = {x.get('did') for x in walk(dl[1] or {}) if x.get('k') == 'ref' and x.get('dk') == 'local'}
+                    rnames = {A.cshort(x) for x in walk(dr[1] or {}) if x.get('k') == 'call'} | ({A.cshort(dr[1])} if dr[0] == 'acc' else set())
+                    for cond, truth in P.guards(n):
+                        for c in walk(cond):
+                            is_cmp = (c.get('k') == 'bin' and c.get('op') in ('!=', '==')) or (c.get('k') == 'call' and c.get('op') in ('!=', '=='))
+                            if not is_cmp:
+                                continue
+                            vs = {x.get('did') for x in walk(c) if x.get('k') == 'ref' and x.get('dk') == 'local'}
+                            cs = {A.cshort(x) for x in walk(c) if x.get('k') == 'call'}
+                            if (vs & lvars) and ((cs & rnames & ELEM_ACCESS) or ('end' in cs and dr[0] == 'acc' and A.cshort(dr[1]) == 'back')):
+                                ok, why = True, 'guarded by a comparison of the two positions'
+                rr.instance('%s|%s' % (f['key'], site), {'function': f['pname'][:140], 'site': site, 'same_container': sorted(str(x) for x in common), 'verdict': why or 'FAILS'})
+                if not ok:
+                    rr.add(Finding('SELF-MOVE', '%s|%s' % (f['key'], 'asg'), prog.site(f, n),
+                                   'an element is assigned from another element designator of the same container (%s) with nothing excluding that both are '
+                                   'the same element: a move assignment onto itself' % ', '.join(x[1] if x[0] == 'm' else 'parameter %s' % x[1] for x in sorted(common, key=str)),
+                                   where=f['pname'], unit=prog.uname))
+    return rr
